@@ -165,26 +165,38 @@ def build_case(r, idx):
         fail_pos = r.randrange(0, len(stmts) + 1)
         if fail_kind == "rebinding" and not bound:
             fail_kind = "unknown-name"
-        bad = {
-            "unknown-name": "zz_q = nope_undefined_name + 1",
-            "type-error": "zz_q = 1 + \"a\"",
-            "rebinding": None,
-            "forbidden-target": r.choice(["inputs = 1", "true = 1", "sum = 2", "constants = 3"]),
-            "failing-call": "zz_q = abs(\"a\")",
-            "parse-error": r.choice(["zz_q = = 1", "zz_q = (1 + ", "output", "zz_q = [1, 2", "zz_q = 1 +* 2", "zz_q = )"]),
-            "not-callable": "zz_q = 5(1)",
-            "field-of-number": "zz_q = (5).k",
-        }[fail_kind]
+        bad_expr = {
+            "unknown-name": "nope_undefined_name + 1",
+            "type-error": "1 + \"a\"",
+            "failing-call": "abs(\"a\")",
+            "not-callable": "5(1)",
+            "field-of-number": "(5).k",
+        }
+        if fail_kind in bad_expr:
+            # the failing expression in every statement form: plain binding, bare expression, output
+            # declaration with a value, and (for an unbound name) the bare `output <name>` form
+            e = bad_expr[fail_kind]
+            forms = [f"zz_q = {e}", e, f"output zz_q = {e}", f"zz_q = [1, {e}]", f"output zz_q = {{k: {e}}}"]
+            if fail_kind == "unknown-name":
+                forms += ["output nope_undefined_name", "output zz_later\nzz_later = 1", "nope_undefined_name",
+                          "output zz_f = x => x + nope_undefined_name"]
+            bad = forms[(idx // len(FAIL_KINDS)) % len(forms)]
+        else:
+            bad = {
+                "rebinding": None,
+                "forbidden-target": r.choice(["inputs = 1", "true = 1", "sum = 2", "constants = 3", "output inputs = 1", "output sum = 2"]),
+                "parse-error": r.choice(["zz_q = = 1", "zz_q = (1 + ", "output", "zz_q = [1, 2", "zz_q = 1 +* 2", "zz_q = )", "output zz_q = ", "output 5", "output = 3"]),
+            }[fail_kind]
         if fail_kind == "rebinding":
             # rebinding must come after the binding it repeats
             target_line = r.randrange(0, len(stmts))
             cands = [(i, s) for i, s in enumerate(stmts) if " = " in s and not s.startswith("//")]
             if not cands:
-                fail_kind, bad, fail_pos = "unknown-name", "zz_q = nope_undefined_name + 1", fail_pos
+                fail_kind, bad, fail_pos = "unknown-name", "output nope_undefined_name", fail_pos
             else:
                 i, s = r.choice(cands)
                 name = s.replace("output ", "").split(" = ")[0].strip()
-                bad = f"{name} = 12345"
+                bad = r.choice([f"{name} = 12345", f"output {name} = 12345"])
                 fail_pos = r.randrange(i + 1, len(stmts) + 1)
         stmts.insert(fail_pos, bad)
     return {"stmts": stmts, "expected": expected, "fail_kind": fail_kind, "fail_pos": fail_pos, "flag_docs": flag_docs, "stdin_doc": stdin_doc,
